@@ -212,9 +212,33 @@ class Check:
         os.makedirs(os.path.join(VERIF, "evidence"), exist_ok=True)
         self._replay_n = 0
         self._load_known()
+        self._finished = False
+        sys.excepthook = self._excepthook
         import numpy as np
         self.np = np
         self.rng = np.random.default_rng(self.seed)
+
+    def _excepthook(self, etype, exc, tb):
+        """An exception escaping the harness means the correspondence could not be
+        evaluated on the current tree (e.g. an internal function the tie relies on
+        changed its signature): the property is no longer shown to hold, so this is
+        reported as a violation without failing input, never as a silent crash."""
+        import traceback
+        text = "".join(traceback.format_exception(etype, exc, tb))
+        sys.stderr.write(text)
+        try:
+            self.violation("harness-exception",
+                           f"the correspondence could not be evaluated: {etype.__name__}: {exc}",
+                           {"theorem_or_correspondence": f"harness/prop_{self.pid}.py (uncaught exception)",
+                            "traceback": text[-3000:]}, failing_input_found=False)
+            try:
+                self.finish(evaluations=1, distinct_nontrivial=0,
+                            rule="aborted by an uncaught exception in the harness", samples=[text[-500:]])
+            except SystemExit:
+                pass
+        finally:
+            sys.stdout.flush()
+            os._exit(1)
 
     # -- known findings -------------------------------------------------
     def _load_known(self):
